@@ -755,3 +755,6 @@ Definition expand (fuel : nat) (l : list tok) : res (list tok) :=
       end
   end.
 End Expand.
+Arguments XVal {A}.
+Arguments XEnd {A}.
+Arguments XErr {A}.
